@@ -48,6 +48,7 @@ class TOp:
     guard: Optional[ast.AST] = None  # the If whose test guards this op (guarded idioms)
     elem_level: bool = False  # operates on the list stored under a key (T[k].append) rather than on T itself
     via: Optional[str] = None  # set when the write happens inside a `self.<helper>()` call
+    may: bool = False  # the container is one of several candidate tables (union): a may-op on each
 
     @property
     def is_write(self):
@@ -55,6 +56,16 @@ class TOp:
 
     def text(self):
         return norm(self.node)
+
+
+def _copy_with_origin(e):
+    """deep copy of an expression whose nodes remember the node they were copied from (`_orig`)"""
+    import copy
+
+    c = copy.deepcopy(e)
+    for a, b in zip(ast.walk(c), ast.walk(e)):
+        a._orig = getattr(b, "_orig", b)
+    return c
 
 
 class FuncView:
@@ -72,6 +83,7 @@ class FuncView:
 
     # --------------------------------------------------------------- structure
     def kind(self, node) -> K:
+        node = getattr(node, "_orig", node)  # nodes of an inlined copy stand for the original expression
         return self.ctx.interp.kind_at(self.fi, node)
 
     def stmt_of(self, node: ast.AST) -> ast.AST:
@@ -105,30 +117,45 @@ class FuncView:
         return out
 
     # --------------------------------------------------------------- tables
-    def table_of(self, expr: ast.AST):
-        """(cls, table, elem_level) of the container denoted by expr, or None."""
+    def tables_of(self, expr: ast.AST):
+        """[(cls, table, elem_level)] candidates for the container denoted by expr (several when the value may be one of
+        several declared tables, e.g. the loop variable of `for t in (self._adj_source, self._adj_target)`)."""
+        if isinstance(expr, ast.Subscript):
+            base = self.tables_of(expr.value)
+            if len(base) > 1 and not any(l for _, _, l in base):
+                # T[k] where T may be one of several tables: the element of each (unions of lists lose their tags)
+                ek = self.kind(expr)
+                if isinstance(ek, (Lst, St)) or (isinstance(ek, Union) and any(isinstance(m, (Lst, St)) for m in ek.members)):
+                    return [(c, t, True) for c, t, _ in base]
         k = self.kind(expr)
-        tag = getattr(k, "tag", None)
-        if isinstance(k, Union):
-            tags = {getattr(m, "tag", None) for m in k.members if isinstance(m, (Dct, Lst, St))}
-            tags.discard(None)
-            tag = tags.pop() if len(tags) == 1 else None
-        if tag:
-            cls, _, tab = tag.partition(".")
-            if tab.endswith("[]"):
-                return cls, tab[:-2], True
-            return cls, tab, False
+        cands = []
+        members = list(k.members) if isinstance(k, Union) else [k]
+        for m in members:
+            tag = getattr(m, "tag", None)
+            if tag and isinstance(m, (Dct, Lst, St)):
+                cls, _, tab = tag.partition(".")
+                if tab.endswith("[]"):
+                    cands.append((cls, tab[:-2], True))
+                else:
+                    cands.append((cls, tab, False))
+        if cands:
+            return sorted(set(cands))
         if is_self_attr(expr) and self.fi.cls is not None:
             tabs = self.ctx.interp.class_tables.get(self.fi.cls.name)
             if tabs and expr.attr in tabs:
-                return self.fi.cls.name, expr.attr, False
+                return [(self.fi.cls.name, expr.attr, False)]
         if isinstance(expr, ast.Attribute):
             rk = self.kind(expr.value)
             from .kinds import Obj
 
             if isinstance(rk, Obj) and rk.cls in self.ctx.interp.class_tables and expr.attr in self.ctx.interp.class_tables[rk.cls]:
-                return rk.cls, expr.attr, False
-        return None
+                return [(rk.cls, expr.attr, False)]
+        return []
+
+    def table_of(self, expr: ast.AST):
+        """(cls, table, elem_level) when expr denotes exactly one declared table, else None."""
+        c = self.tables_of(expr)
+        return c[0] if len(c) == 1 else None
 
     def ops(self, with_calls: bool = False) -> List[TOp]:
         if self._ops is None:
@@ -137,64 +164,203 @@ class FuncView:
             return self._ops + self.call_ops()
         return self._ops
 
+    def mentions(self):
+        """[(cls, table, node, may)] for every expression (attribute / local name) that denotes a declared table as a
+        whole - including tables merely handed to a helper, which are no table operation of this function."""
+        out = []
+        for n in walk_no_nested(self.fi.node):
+            if isinstance(n, (ast.Attribute, ast.Name)) and isinstance(getattr(n, "ctx", None), ast.Load):
+                c = self.tables_of(n)
+                for cls, tab, lvl in c:
+                    if not lvl:
+                        out.append((cls, tab, n, len(c) > 1))
+        return out
+
+    def _same_object_callees(self, n: ast.Call):
+        """callees whose table operations hit the tables of THIS object: `self.<method>(...)` calls (and plain function
+        calls that are handed `self`); `h.add_edge(...)` on another object does not count."""
+        f = n.func
+        if isinstance(f, ast.Attribute) and isinstance(f.value, ast.Name) and f.value.id == "self":
+            return self.ctx.callees(self.fi, n)
+        if isinstance(f, ast.Name) and any(isinstance(a, ast.Name) and a.id == "self" for a in n.args):
+            return self.ctx.callees(self.fi, n)
+        if self.fi.cls is None:
+            # module-level function: tables belong to the parameter object; calls on the same parameter name
+            if isinstance(f, ast.Attribute) and isinstance(f.value, ast.Name) and f.value.id in [a.arg for a in self.fi.params]:
+                return self.ctx.callees(self.fi, n)
+        return []
+
     def call_ops(self) -> List[TOp]:
-        """Writes performed by `self.<method>(...)` helpers (inlining bound 1): each direct table write of the
-        callee becomes an op located at the call."""
+        """Table operations performed by repo callees (resolved by the kind engine), transitively (depth 4): each
+        becomes an op located at the call in this function."""
         if getattr(self, "_call_ops", None) is not None:
             return self._call_ops
         out: List[TOp] = []
-        if self.fi.cls is not None:
-            for n in walk_no_nested(self.fi.node):
-                if isinstance(n, ast.Call) and isinstance(n.func, ast.Attribute) and is_self_attr(n.func) and n.func.attr in self.fi.cls.methods and n.func.attr != self.fi.name:
-                    callee = self.ctx.view(self.fi.cls.methods[n.func.attr])
-                    for o in callee.ops():
-                        if o.is_write:
-                            c = TOp(o.op, o.cls, o.table, n, None, None, elem_level=o.elem_level)
-                            c.at = self.stmt_of(n)
-                            c.via = callee.fi.short
-                            out.append(c)
-        self._call_ops = out
+        self._call_ops = out  # recursion guard
+        for n in walk_no_nested(self.fi.node):
+            if not isinstance(n, ast.Call):
+                continue
+            for callee in self._same_object_callees(n):
+                if callee.qualname == self.fi.qualname:
+                    continue
+                for (cls, tab, op, lvl, may) in self.ctx.view(callee).effects()[0]:
+                    c = TOp(op, cls, tab, n, None, None, elem_level=lvl)
+                    c.may = may
+                    c.at = self.stmt_of(n)
+                    c.via = callee.short
+                    out.append(c)
         return out
+
+    def effects(self, _depth: int = 0):
+        """({(cls, table, op, elem_level, may)}, opaque): every table operation this function may perform, directly or
+        through resolved repo callees; `opaque` when it also mutates something the analysis cannot attribute to a
+        declared table (then the absence of an operation is not definite)."""
+        if getattr(self, "_effects", None) is not None:
+            return self._effects
+        if _depth > 4 or getattr(self, "_effects_busy", False):
+            return (set(), False)
+        self._effects_busy = True
+        eff = {(o.cls, o.table, o.op, o.elem_level, o.may) for o in self.ops()}
+        opaque = bool(self.unattributed_mutations())
+        for n in walk_no_nested(self.fi.node):
+            if isinstance(n, ast.Call):
+                for callee in self._same_object_callees(n):
+                    if callee.qualname != self.fi.qualname:
+                        e2, o2 = self.ctx.view(callee).effects(_depth + 1)
+                        eff |= e2
+                        opaque = opaque or o2
+        self._effects_busy = False
+        self._effects = (eff, opaque)
+        return self._effects
+
+    def unattributed_mutations(self):
+        """mutating statements on a base whose kind is unknown although it may refer to the object's state"""
+        out = []
+        from .kinds import _Top
+
+        def unknown_base(b):
+            if self.tables_of(b):
+                return False
+            k = self.kind(b)
+            root = b
+            while isinstance(root, (ast.Subscript, ast.Attribute)):
+                root = root.value
+            if isinstance(root, ast.Call):
+                return False
+            if not isinstance(root, ast.Name):
+                return False
+            if root.id == "self":
+                # self.<unknown attr>[...] = ... : not a declared table (e.g. a cache) - cannot stand in for one
+                return False
+            return isinstance(k, _Top)
+
+        for n in walk_no_nested(self.fi.node):
+            if isinstance(n, ast.Subscript) and isinstance(n.ctx, (ast.Store, ast.Del)) and unknown_base(n.value):
+                out.append(n)
+            elif isinstance(n, ast.Call) and isinstance(n.func, ast.Attribute) and n.func.attr in MUTATING_METHODS and unknown_base(n.func.value):
+                out.append(n)
+        return out
+
+    def resolve(self, expr, depth: int = 0):
+        """Follow a local name to the expression it was (uniquely) assigned from."""
+        if depth > 5 or not isinstance(expr, ast.Name):
+            return expr
+        defs = []
+        for n in walk_no_nested(self.fi.node):
+            if isinstance(n, ast.Assign) and len(n.targets) == 1 and isinstance(n.targets[0], ast.Name) and n.targets[0].id == expr.id:
+                defs.append(n.value)
+            elif isinstance(n, (ast.AugAssign,)) and isinstance(n.target, ast.Name) and n.target.id == expr.id:
+                return expr
+            elif isinstance(n, (ast.For, ast.comprehension)) and any(isinstance(x, ast.Name) and x.id == expr.id for x in ast.walk(n.target)):
+                return expr
+        if expr.id in [a.arg for a in self.fi.params]:
+            return expr
+        if expr.id in self._mutated_locals():
+            return expr  # an object that is filled in place is not the expression it was created from
+        if len(defs) == 1:
+            return self.resolve(defs[0], depth + 1)
+        return expr
+
+    def _mutated_locals(self):
+        m = getattr(self, "_mutated", None)
+        if m is None:
+            m = set()
+            for n in walk_no_nested(self.fi.node):
+                if isinstance(n, ast.Subscript) and isinstance(n.ctx, (ast.Store, ast.Del)) and isinstance(n.value, ast.Name):
+                    m.add(n.value.id)
+                elif isinstance(n, ast.Call) and isinstance(n.func, ast.Attribute) and isinstance(n.func.value, ast.Name) and (n.func.attr in MUTATING_METHODS or n.func.attr.startswith("add_") or n.func.attr.startswith("set_") or n.func.attr.startswith("remove_")):
+                    m.add(n.func.value.id)
+                elif isinstance(n, ast.Attribute) and isinstance(n.ctx, ast.Store) and isinstance(n.value, ast.Name):
+                    m.add(n.value.id)
+            self._mutated = m
+        return m
+
+    def inline(self, expr, depth: int = 4):
+        """A copy of `expr` in which every local name that has exactly one definition (and is no parameter / loop
+        variable / augmented target) is replaced by the expression it was assigned from, recursively: aliases and
+        step-by-step computations are folded back into one expression before a template is matched."""
+        import copy
+
+        fv = self
+
+        class Sub(ast.NodeTransformer):
+            def __init__(self, d):
+                self.d = d
+
+            def visit_Name(self, n):
+                if not isinstance(n.ctx, ast.Load) or self.d <= 0:
+                    return n
+                r = fv.resolve(n, depth=5)
+                if r is n or isinstance(r, ast.Name) and r.id == n.id:
+                    return n
+                return Sub(self.d - 1).visit(_copy_with_origin(r))
+
+        return Sub(depth).visit(_copy_with_origin(expr))
 
     def _extract(self) -> List[TOp]:
         out: List[TOp] = []
+
+        def emit(op, cands, node, key=None, value=None):
+            may = len(cands) > 1
+            for cls, tab, lvl in cands:
+                o = TOp(op, cls, tab, node, key, value, elem_level=lvl)
+                o.may = may
+                out.append(o)
+
         for n in walk_no_nested(self.fi.node):
             if isinstance(n, ast.Subscript):
-                t = self.table_of(n.value)
-                if t is None:
+                cands = self.tables_of(n.value)
+                if not cands:
                     continue
-                cls, tab, lvl = t
                 par = self.parent.get(id(n))
                 if isinstance(n.ctx, ast.Store):
                     if isinstance(par, ast.AugAssign) and par.target is n:
-                        out.append(TOp("aug", cls, tab, par, n.slice, par.value, elem_level=lvl))
+                        emit("aug", cands, par, n.slice, par.value)
                     else:
                         val = par.value if isinstance(par, (ast.Assign, ast.AnnAssign)) else None
-                        out.append(TOp("store", cls, tab, par if val is not None else n, n.slice, val, elem_level=lvl))
+                        emit("store", cands, par if val is not None else n, n.slice, val)
                 elif isinstance(n.ctx, ast.Del):
-                    out.append(TOp("del", cls, tab, par, n.slice, elem_level=lvl))
+                    emit("del", cands, par, n.slice)
                 else:
-                    # a read; if it is the receiver of a mutating method on the stored list it is reported there too
-                    out.append(TOp("read", cls, tab, n, n.slice, elem_level=lvl))
+                    emit("read", cands, n, n.slice)
             elif isinstance(n, ast.Compare) and len(n.ops) == 1 and isinstance(n.ops[0], (ast.In, ast.NotIn)):
-                t = self.table_of(n.comparators[0])
-                if t is not None:
-                    out.append(TOp("member", t[0], t[1], n, n.left, elem_level=t[2]))
+                cands = self.tables_of(n.comparators[0])
+                if cands:
+                    emit("member", cands, n, n.left)
             elif isinstance(n, ast.Call) and isinstance(n.func, ast.Attribute):
-                t = self.table_of(n.func.value)
-                if t is None:
+                cands = self.tables_of(n.func.value)
+                if not cands:
                     continue
-                cls, tab, lvl = t
                 meth = n.func.attr
                 if meth in MUTATING_METHODS:
                     op = MUTATING_METHODS[meth]
                     key = n.args[0] if n.args else None
                     if meth in ("append", "extend", "insert", "add"):
-                        out.append(TOp(op, cls, tab, n, None, key, elem_level=lvl))
+                        emit(op, cands, n, None, key)
                     else:
-                        out.append(TOp(op, cls, tab, n, key, None, elem_level=lvl))
+                        emit(op, cands, n, key, None)
                 elif meth in READ_METHODS:
-                    out.append(TOp(READ_METHODS[meth], cls, tab, n, n.args[0] if n.args else None, elem_level=lvl))
+                    emit(READ_METHODS[meth], cands, n, n.args[0] if n.args else None)
             elif isinstance(n, ast.Attribute) and isinstance(n.ctx, ast.Store):
                 if is_self_attr(n) and self.fi.cls is not None:
                     tabs = self.ctx.interp.class_tables.get(self.fi.cls.name)
@@ -203,9 +369,9 @@ class FuncView:
                         val = par.value if isinstance(par, (ast.Assign, ast.AnnAssign, ast.AugAssign)) else None
                         out.append(TOp("setattr", self.fi.cls.name, n.attr, par, None, val))
             elif isinstance(n, (ast.For, ast.comprehension)):
-                t = self.table_of(n.iter)
-                if t is not None:
-                    out.append(TOp("iter", t[0], t[1], n.iter, elem_level=t[2]))
+                cands = self.tables_of(n.iter)
+                if cands:
+                    emit("iter", cands, n.iter)
         # locate each op in the CFG and fold the guarded idioms
         for o in out:
             o.at = self.stmt_of(o.node)
@@ -235,6 +401,19 @@ class FuncView:
         loops = self.enclosing_all(o.at, (ast.For,))
         node = loops[-1] if loops else o.at
         return self.cfg.by_ast[id(node)]
+
+    def must_id(self, o: TOp) -> int:
+        """CFG node standing for a key-level op in must-pass-through questions: an op whose container is the loop
+        variable of `for t in (<tables>)` / `for t, x in zip((<tables>), ...)` happens once per listed table - it is
+        represented by that loop's head (the literal is not empty, so the body runs)."""
+        node = o.at
+        if o.may:
+            for loop in self.enclosing_all(o.at, (ast.For,)):
+                it = loop.iter
+                lits = [it] + (list(it.args) if isinstance(it, ast.Call) and isinstance(it.func, ast.Name) and it.func.id in ("zip", "enumerate") else [])
+                if any(isinstance(x, (ast.Tuple, ast.List)) and x.elts for x in lits):
+                    node = loop
+        return self.cfg.by_ast[id(self.stmt_of(node))]
 
     def passes_through(self, anchor_id: int, op_ids: set) -> bool:
         """Every entry->EXIT path through `anchor_id` meets one of `op_ids` (before or after the anchor)."""
